@@ -215,6 +215,20 @@ Section P.
     generalize PI2_1. intros H. repeat split; try lra.
   Qed.
 
+  (* the exact image of [0, 2pi) x [0, pi] at a fixed time is [0, 2pi) x [0, pi] *)
+  Lemma hor2equ_image mjd :
+    (forall azi zen, 0 <= azi < 2 * PI -> 0 <= zen <= PI ->
+       0 <= fst (hor2equ N azi zen mjd) < 2 * PI /\ 0 <= snd (hor2equ N azi zen mjd) <= PI)
+    /\ (forall ra dec, 0 <= ra < 2 * PI -> 0 <= dec <= PI ->
+       exists azi zen, 0 <= azi < 2 * PI /\ 0 <= zen <= PI /\ hor2equ N azi zen mjd = (ra, dec)).
+  Proof.
+    split.
+    - intros azi zen Ha Hz. rewrite hor2equ_R. cbn [fst snd]. split; [apply azi2ra_range | lra].
+    - intros ra dec Hr Hd. exists (azi2ra N ra mjd), (PI - dec).
+      split; [apply azi2ra_range|]. split; [lra|].
+      rewrite hor2equ_R, (azi2ra_involution ra mjd Hr). f_equal. ring.
+  Qed.
+
   Lemma hor2equ_partial azi zen mjd :
     0 <= fst (hor2equ N azi zen mjd) < 2 * PI
     /\ (0 <= zen <= PI -> 0 <= snd (hor2equ N azi zen mjd) <= PI)
